@@ -526,6 +526,14 @@ func BaseScope() *Scope {
 		}
 		return List(append([]Value{a[0]}, el...)...), nil
 	}))
+	// (apply f args): only the two-argument form with a list or vector of arguments is modelled
+	s.Set("apply", B("apply", func(in *Interp, a []Value) (Value, *Err) {
+		if len(a) != 2 || (a[1].K != KList && a[1].K != KVec && a[1].K != KNil) {
+			in.Unspec = true
+			return Nil, goErr(EDomain, "apply")
+		}
+		return in.Apply(a[0], a[1].Elems)
+	}))
 	s.Set("throw", B("throw", func(in *Interp, a []Value) (Value, *Err) {
 		if e := arity(a, 1); e != nil {
 			return Nil, e
@@ -543,6 +551,12 @@ func BaseScope() *Scope {
 		return a[0], nil
 	}))
 	s.Set("boom!", B("boom!", func(in *Interp, a []Value) (Value, *Err) {
+		if e := arity(a, 0); e != nil {
+			return Nil, e
+		}
+		return Nil, &Err{Class: EGo, Payload: Opaque("go-error"), Msg: "boom", Sentinel: "boom"}
+	}))
+	s.Set("boomw!", B("boomw!", func(in *Interp, a []Value) (Value, *Err) {
 		if e := arity(a, 0); e != nil {
 			return Nil, e
 		}
